@@ -253,10 +253,9 @@ func c11KeyLevelsCtx(c *Ctx, x *c11Ctx) {
 					got = x.decrypt(out)
 				}
 				x.klProbe(c, "hoisted", cfg, L, a.what, st, got, ref(a, v))
+				outH, stH := out, st
 
-				// ---- hoisted lazy + ModDown at the key's own LevelP
-				v = x.randVec(c, 1)
-				ct = x.encryptLvl(v, L)
+				// ---- hoisted lazy + ModDown at the key's own LevelP, on the SAME ciphertext
 				out = x.newCtLvl(L)
 				st = c11TryErr(func() (err error) {
 					ev.DecomposeNTT(L, cfg.lp, cfg.lp+1, ct.Value[1], ct.IsNTT, ev.BuffDecompQP)
@@ -288,6 +287,16 @@ func c11KeyLevelsCtx(c *Ctx, x *c11Ctx) {
 					got = x.decrypt(out)
 				}
 				x.klProbe(c, "lazy", cfg, L, a.what, st, got, ref(a, v))
+				// Props/C11 `hoistedLazy_modDown`: ModDown(sigma(x + P_key*c0)) = sigma(ModDown(x) + c0), bit for bit
+				det := ""
+				if st == "" && stH == "" {
+					if !(out.Value[0].Equal(&outH.Value[0]) && out.Value[1].Equal(&outH.Value[1])) {
+						det = "AutomorphismHoistedLazy + ModDown differs from AutomorphismHoisted on the same ciphertext and key"
+					}
+				} else {
+					det = fmt.Sprintf("status lazy=%q hoisted=%q", st, stH)
+				}
+				c.Probe("keylevel_lazy_eq_hoisted", fmt.Sprintf("%s/nP%d %v L%d %s", x.name, x.rp.PCount(), cfg, L, a.what), "C11-keylevel-lazy-eq-hoisted", det)
 			}
 		}
 	}
